@@ -326,9 +326,9 @@ extern "C" int vf_main(int argc,char**argv,void(*scenario)(void)){
   while(true){
     // completed bound bookkeeping
     if(!stop && !hitdeadline && selfcheck==0){ int cb=-1; for(int c=0;c<=maxb;c++){ if(bucket[c].empty()&&running_cost_count[c]==0) cb=c; else break; } if(cb>completed_bound && urgent.empty()) completed_bound=cb; }
-    // the deadline takes effect only after a minimal exploration (deviation bound 0 complete, or 300 executions), so that an overloaded
+    // the deadline takes effect only after a minimal exploration (deviation bound 1 complete, or 300 executions), so that an overloaded
     // machine cannot turn a leg into an empty run; a hard limit of three times the deadline plus 20 s remains
-    if(now_s()-t0>O.deadline && !hitdeadline && (completed_bound>=0 || nexec>=300 || now_s()-t0>3*O.deadline+20)){ hitdeadline=true; }
+    if(now_s()-t0>O.deadline && !hitdeadline && (completed_bound>=(maxb<1?maxb:1) || nexec>=300 || now_s()-t0>3*O.deadline+20)){ hitdeadline=true; }
     for(int j=0;j<jobs;j++) if(!busy[j]){
       if(!urgent.empty()){ Node nd=urgent.front(); urgent.pop_front(); dispatch(j,nd); continue; }
       if(stop||hitdeadline) continue; if(O.maxexec>=0 && nexec+nbusy>=O.maxexec) continue;
